@@ -20,7 +20,10 @@ NAMES_FULL = ["local.", "_a._tcp.local.", "_A._tcp.local.", "x._a._tcp.local.", 
               "Dotted.Inst._a._tcp.local.", "ünï._a._tcp.local.", "h.local.", "other.example.",
               f"{L62}.local.", f"{L63}.local.", f"{L64}.local.", f"{L65}.local.", f"{U63}.local.", f"{U64}.local.",
               f"{U3}._a._tcp.local.", f"x.{L63}.local.", "drucker.büro.local.", "scanner.büro.local.",
-              "Etage 1.Café €._a._tcp.local."]
+              "Etage 1.Café €._a._tcp.local.",
+              # the longest name of the quantifier (253 characters with its dot, 254 octets on the wire), and a name of only
+              # 138 characters that needs 263 octets on the wire (RFC 1035 allows 255)
+              f"{L63}.{L63}.{L63}.{'e' * 60}.", f"{U63}.{U63}.{U63}.{U63}.local."]
 NAMES_RED = ["local.", "_a._tcp.local.", "_A._tcp.local.", "x._a._tcp.local.", "y.x._a._tcp.local.", "h.local.",
              f"{L63}.local.", "drucker.büro.local.", "scanner.büro.local."]
 IP4, IP6 = b"\x0a\x00\x00\x01", bytes.fromhex("fe80000000000000000000000000abcd")
@@ -93,6 +96,17 @@ def label_too_long(e: tuple) -> bool:
     if e[0] == "SRV":
         names.append(e[7])
     return any(len(l) > 63 for n in names for l in wire.labels_of(n))
+
+
+def name_over_255_octets(e: tuple) -> bool:
+    """A name within the 253 characters of the quantifier that needs more than the 255 octets RFC 1035 allows on the wire
+    (a length octet per label plus the root label) - only possible with multi-byte characters."""
+    names = [e[1]]
+    if e[0] in ("PTR", "CNAME", "NSEC"):
+        names.append(e[4])
+    if e[0] == "SRV":
+        names.append(e[7])
+    return any(sum(len(l) + 1 for l in wire.labels_of(n)) + 1 > 255 for n in names)
 
 
 class Case:
@@ -175,6 +189,7 @@ def check_case(case: Case, prop: str) -> Tuple[Optional[str], str]:
     n_entries_total = sum(len(s) for s in want)
     is_query = (case.flags & 0x8000) == 0
     c14 = prop == "C14"
+    over255 = False
     for pi, p in enumerate(packets):
         lastp = pi == len(packets) - 1
         if (c14 or case.big) and len(p) > MAX_ABS:
@@ -182,7 +197,15 @@ def check_case(case: Case, prop: str) -> Tuple[Optional[str], str]:
         try:
             ref = wire.strict_decode(p)
         except wire.Reject as e:
-            return f"independent decoder rejects datagram {pi} (corrupt, or header counts != entries present): {e}", "bad"
+            if str(e) != "name too long" or not any(name_over_255_octets(x) for x in entries):
+                return f"independent decoder rejects datagram {pi} (corrupt, or header counts != entries present): {e}", "bad"
+            # the shape of the open finding: a name of the message needs more than 255 octets on the wire and the builder
+            # emitted it; the rest of the datagram is still compared
+            over255 = True
+            try:
+                ref = wire.strict_decode(p, max_name=1 << 20)
+            except wire.Reject as e2:
+                return f"independent decoder rejects datagram {pi} (corrupt, or header counts != entries present): {e2}", "bad"
         secs = [ref.questions, ref.answers, ref.authorities, ref.additionals]
         count = sum(len(s) for s in secs)
         if case.big:
@@ -217,6 +240,9 @@ def check_case(case: Case, prop: str) -> Tuple[Optional[str], str]:
             return f"independent decoder recovers {got_ref}, message was {want}", "bad"
         if got_lib != want:
             return f"library decoder recovers {got_lib}, message was {want}", "bad"
+    if over255 and not c14:
+        return ("name-over-255-octets: a name of the message takes more than the 255 octets RFC 1035 allows on the wire; the "
+                "builder emitted it and an RFC 1035 decoder rejects the datagram (everything else round-trips)"), "bad"
     return None, f"ok:{len(packets)}pkt" if len(packets) < 3 else "ok:3+pkt"
 
 
@@ -337,6 +363,8 @@ def run_codec(prop: str, tier: str, stats: Stats) -> Dict[str, Any]:
         if problem is None:
             return None, oc
         sig = "label-64" if any(_has_len(e, 64) for e in case.q + case.an + case.au + case.ad) else "other"
+        if problem.startswith("name-over-255-octets"):
+            sig = "name-over-255-octets"
         return ({"what": f"{prop} {summary(case)}: {problem[:600]}", "replay": {"case": case.as_json()},
                  "signature": {"check": sig}}, oc)
 
